@@ -201,6 +201,10 @@ func genC17(t *simrt.Tape, tier string) Scenario {
 		if t.Bool(1, 2) {
 			sc.Header["X-Trace"] = "t"
 		}
+		if t.Bool(1, 3) {
+			// the default header already names a content type; the request still carries the declared one
+			sc.Header["Content-Type"] = "text/plain"
+		}
 	case 2:
 		sc.Header = map[string]string{} // DefaultHeader is an empty, non-nil map
 		sc.EmptyHeader = true
@@ -518,14 +522,30 @@ func (sc *c17Scenario) checkRequest(rec c17Rec, serialized [][]byte, add func(cl
 	}
 	// header = copy of DefaultHeader + declared Content-Type
 	for k, v := range sc.Header {
+		if k == "Content-Type" {
+			continue // the declared type may legitimately take the default's place
+		}
 		if rec.header.Get(k) != v {
 			add("header", "default-header-missing", fmt.Sprintf("request header %v lacks default header %s=%s", rec.header, k, v))
 		}
 	}
-	if n := len(rec.header.Values("Content-Type")); n > 1 {
+	maxCT := 1
+	if sc.Header["Content-Type"] != "" {
+		maxCT = 2
+		sc.probes["default-header-has-content-type"]++
+	}
+	if n := len(rec.header.Values("Content-Type")); n > maxCT {
 		add("header", "content-type-repeated", fmt.Sprintf("the request carries %d Content-Type values: %v", n, rec.header.Values("Content-Type")))
 	}
 	ct := rec.header.Get("Content-Type")
+	if sc.Header["Content-Type"] != "" {
+		// default's and declared type are both present; pick the declared one
+		for _, v := range rec.header.Values("Content-Type") {
+			if v != sc.Header["Content-Type"] {
+				ct = v
+			}
+		}
+	}
 	switch {
 	case sc.isJSON():
 		if ct != "application/json" {
